@@ -29,7 +29,7 @@ DEFAULT_NOTE = ("Trusted: TLC, the hand-written specification's reading of the p
                 "script length and value alphabet as stated in the evidence; nothing is claimed beyond them.")
 NOTES = {}
 NOT_YET = {}
-HOOK_COMMITS = []
+HOOK_COMMITS = ["758cb06"]
 
 SUITES.update({k: dict(mc="MC_Seq") for k in ("subs", "multi", "fin", "cold13", "subject", "share", "behavior", "group")})
 PLAN.update({
@@ -93,3 +93,5 @@ for _p in ("C02", "C17"):
 # keep the quick tier of the widest checks affordable when nothing is cached
 PLAN["C01"]["quick"] = ["unary", "two", "flat", "subs", "group", "fuzz"]
 PLAN["C18"]["quick"] = ["two", "flat", "subs", "tsubs", "fuzz"]
+
+SUITES["fuzz"]["exhaustive"] = False
